@@ -387,35 +387,38 @@ CONV = (  # driver, link, command code, largest data
 )
 
 
-def conv_rig(env, driver, link, rnd, pgap):
-    """-> chip, transport, backend, trace constants, the device object made by the driver's own init()"""
+def conv_rig(env, driver, link, rnd):
+    """-> chip, transport, backend, trace constants, the driver's init function"""
     if driver == "rcs380":
         chip = R.SimRcs380()
         fw = LU.FrameFirmware(R.Rcs380Transport(chip, env.clock))
         tr, be, const = usb_rig(env, fw, 64, 64, vid=0x054C, pid=0x06C1, manufacturer="SONY", product="RC-S380/P")
-        return chip, tr, be, const, nfc.clf.rcs380.init(tr)
+        return chip, tr, be, const, nfc.clf.rcs380.init
     if driver == "acr122":
         chip = P.SimPn53x("pn532")
         fw = LU.FrameFirmware(P.Acr122Transport(chip, env.clock))
         tr, be, const = usb_rig(env, fw, 64, 64, vid=0x072F, pid=0x2200, manufacturer="ACS", product="ACR122U PICC Interface")
-        return chip, tr, be, const, nfc.clf.acr122.init(tr)
+        return chip, tr, be, const, nfc.clf.acr122.init
     if link == "usb":
         chip = P.SimPn53x(driver)
         fw = LU.FrameFirmware(P.FrameTransport(chip, env.clock, "USB"))
         tr, be, const = usb_rig(env, fw, 64, 64, string_error=(driver == "pn533"))
-        return chip, tr, be, const, getattr(nfc.clf, driver).init(tr)
+        return chip, tr, be, const, getattr(nfc.clf, driver).init
     chip = P.SimPn53x("pn532")
     fw = (LT.ArygonFirmware if driver == "arygon" else LT.Pn53xFirmware)(chip, env.clock)
     tr, be, const = tty_rig(env, fw, random_chunker(rnd, 0.0))
-    device = getattr(nfc.clf, driver).init(tr)
-    be.chunker = random_chunker(rnd, pgap)          # pauses longer than the read timeout only after init()
-    return chip, tr, be, const, device
+    return chip, tr, be, const, getattr(nfc.clf, driver).init
 
 
 def conversation(env, driver, link, code, lengths, rseed, pgap=0.0):
     """device init() and one host command per length through the real transport -> trace + what the chip saw"""
     rnd = random.Random(rseed)
-    chip, tr, be, const, device = conv_rig(env, driver, link, rnd, pgap)
+    chip, tr, be, const, init = conv_rig(env, driver, link, rnd)
+    r, device = attempt(init, tr)
+    if device is None:                  # a verdict, not a machinery failure: the driver cannot even start on this transport
+        return dict(const=const, ev=list(be.log), lost=[(-1, r, "the driver's init() failed")])
+    if link == "tty":
+        be.chunker = random_chunker(rnd, pgap)          # pauses longer than the read timeout only after init()
     cs = device.chipset
     lost = []
     for n in lengths:
@@ -460,6 +463,64 @@ def conv_traces(env, tier, rnd, seed):
                 t = conversation(env, driver, link, code, ns2[k:k + 20], rs, pgap=0.25)
                 t.update(id="convgap/%s/%d" % (driver, k), gen=["conv", driver, link, code, ns2[k:k + 20], rs, 0.25], cls="conv-gaps", driver=driver)
                 out.append(t)
+    return out
+
+
+# ---------------------------------------------------------------------------------------------------
+# opening and finding devices: the glue around the two byte streams (plain expectations, no TLC)
+def open_cases(env):
+    """-> [(case, expected, observed)] for USB.open() failures, USB.find() / TTY.find('com') on the fake modules"""
+    out = []
+
+    def usb_open(case, want, devices, bus=1, adr=2):
+        NT.libusb = LU.Usb1(devices)
+        r, tr = attempt(NT.USB, bus, adr)
+        out.append(("usb:open:" + case, want, r))
+        return tr
+
+    def dev(**kw):
+        return LU.Device(env.clock, LU.RawFirmware(), **kw)
+
+    usb_open("no-such-device", "ENODEV", [dev(adr=5)])
+    d = dev()
+    d.settings = []
+    usb_open("no-settings", "ENODEV", [d])
+    d = dev()
+    d.settings = [LU.Setting([LU.Endpoint(0x83, 0x03, 8), LU.Endpoint(0x04, 0x02, 64)])]
+    usb_open("no-bulk-IN-endpoint", "ENODEV", [d])
+    for exc, want in ((LU.USBErrorAccess, "EACCES"), (LU.USBErrorBusy, "EBUSY"), (LU.USBErrorNoDevice, "ENODEV")):
+        d = dev()
+        d.claim_error = exc
+        usb_open("claimInterface-" + exc.__name__, want, [d])
+    d = dev(string_error=True)
+    tr = usb_open("string-descriptors-unreadable", "ok", [d])
+    out.append(("usb:open:string-descriptors-unreadable:names", repr((None, None)), repr((tr.manufacturer_name, tr.product_name)) if tr else "-"))
+    tr = usb_open("plain", "ok", [dev(manufacturer="V", product="P")])
+    out.append(("usb:open:names", repr(("V", "P")), repr((tr.manufacturer_name, tr.product_name)) if tr else "-"))
+    if tr:
+        tr.close()
+        out.append(("usb:close:write-after-close", repr(("ok", None)), repr(attempt(tr.write, b"12"))))
+        out.append(("usb:close:read-after-close", repr(("ok", None)), repr(attempt(tr.read, 10))))
+    NT.libusb = LU.Usb1([dev(vid=0x054C, pid=0x06C1, bus=1, adr=2), dev(vid=0x04CC, pid=0x2533, bus=1, adr=3),
+                         dev(vid=0x054C, pid=0x02E1, bus=2, adr=3)])
+    for path, want in (("usb", [(0x054C, 0x06C1, 1, 2), (0x04CC, 0x2533, 1, 3), (0x054C, 0x02E1, 2, 3)]),
+                       ("usb:054c", [(0x054C, 0x06C1, 1, 2), (0x054C, 0x02E1, 2, 3)]),
+                       ("usb:054c:06c1", [(0x054C, 0x06C1, 1, 2)]), ("usb:001", [(0x054C, 0x06C1, 1, 2), (0x04CC, 0x2533, 1, 3)]),
+                       ("usb:002:003", [(0x054C, 0x02E1, 2, 3)]), ("usb:zzzz", None), ("tty", None)):
+        out.append(("usb:find:" + path, repr(("ok", want)), repr(attempt(NT.USB.find, path))))
+    mod = LT.SerialModule()
+    mod.add(LT.Port("COM3", env.clock, LT.RawFirmware()))
+    mod.add(LT.Port("COM7", env.clock, LT.RawFirmware()))
+    NT.serial = mod
+    for path, want in (("com", (["COM3", "COM7"], "", True)), ("com:3", (["COM3"], "", False)),
+                       ("com:COM7:pn532", (["COM7"], "pn532", False)), ("usb", None)):
+        out.append(("tty:find:" + path, repr(("ok", want)), repr(attempt(NT.TTY.find, path))))
+    tr = NT.TTY("COM3")
+    out.append(("tty:open:port-baudrate", repr(("COM3", 115200, 0.05)), repr((tr.port, tr.baudrate, mod.ports["COM3"].timeout))))
+    tr.baudrate = 9600
+    tr.close()
+    out.append(("tty:close", repr(("", 0, ("ok", None), ("ok", None), 9600)),
+                repr((tr.port, tr.baudrate, attempt(tr.write, b"12"), attempt(tr.read, 10), mod.ports["COM3"].baudrate))))
     return out
 
 
@@ -604,12 +665,17 @@ def stage(ck, tier, seed):
         mc_future = pool.submit(model_check, tier)               # TLC runs while the traces are recorded
         try:
             traces = usb_traces(env, tier, rnd) + tty_traces(env, tier, rnd) + conv_traces(env, tier, rnd, seed)
+            glue = open_cases(env)
         finally:
             env.restore()
         mc, mc_viol = mc_future.result()
     for cfg, r in mc_viol:
         ck.violation("spec:Transport:%s:%s" % (cfg[13:-4], ",".join(r.violated or ["deadlock"])),
                      "the model of the transport violates its own property: %s" % (r.error_trace or "")[-2:])
+    for case, want, got in glue:
+        if want != got:
+            ck.violation(case, "nfc.clf.transport: %s: expected %s, observed %s" % (case, want, got),
+                         replay=dict(kind="transport", id=case, gen=["glue", case], seed=seed))
     st = selftest_traces(traces)
     verdicts, stats = tlc.validate_traces("Trace_Transport.tla", "Trace_Transport.cfg", PID + "/transport",
                                           [strip(t) for t in traces] + [t for t, _, _ in st], shards=4 if quick else 12,
@@ -658,7 +724,7 @@ def stage(ck, tier, seed):
     ck.cover(evaluations=nev, distinct_nontrivial=len(classes))
     ck.cover(transport_mc_states=mc["states"], transport_mc_transitions=mc["transitions"],
              transport_traces_validated=len(traces), transport_trace_events=nev, transport_trace_states=stats["states"],
-             transport_case_classes=len(classes), transport_witnesses=mc["witnesses"], transport_mc_runs=mc["runs"],
+             transport_case_classes=len(classes), transport_glue_cases=len(glue), transport_witnesses=mc["witnesses"], transport_mc_runs=mc["runs"],
              transport_selftest="%d corrupted traces rejected (%s)" % (len(st), ", ".join(c for _, _, c in st)))
     ck.sample(dict(trace=traces[0]["id"], ev=traces[0]["ev"][:4]))
     return len(traces), nev, len(classes)
@@ -667,6 +733,12 @@ def stage(ck, tier, seed):
 def replay(r, args):
     env = Env()
     try:
+        if r["gen"][0] == "glue":
+            bad = [c for c in open_cases(env) if c[0] == r["gen"][1] and c[1] != c[2]]
+            print("replay:", bad or "as expected")
+            if bad:
+                print("VIOLATION property=%s replay=%s" % (PID, args.replay))
+            return 1 if bad else 0
         t = regenerate(env, r["gen"], random.Random(r.get("seed", 1) * 7919 + 14))
     finally:
         env.restore()
